@@ -103,6 +103,16 @@ def structural_laws(C):
     yield 'Enum(x, IntEnum) <--> Enum(x, **members)', C.Enum(C.Int16ub, E), C.Enum(C.Int16ub, one=1, two=2, big=300)
     yield 'Enum(x, IntEnum, extra=) <--> Enum(x, **members, extra=)', C.Enum(C.Int16ub, E, more=7), C.Enum(C.Int16ub, one=1, two=2, big=300, more=7)
     yield 'FlagsEnum(x, IntFlag) <--> FlagsEnum(x, **members)', C.FlagsEnum(C.Byte, F), C.FlagsEnum(C.Byte, r=1, w=2, x=4)
+    from construct.core import encodingunit
+    for enc in ('ascii', 'utf8', 'utf16', 'utf32', 'utf_16_le', 'utf-32-be'):
+        unit = encodingunit(enc)
+        for n in (0, 1, 10, this.n):
+            yield 'PaddedString(n, enc) <--> StringEncoded(FixedSized(n, NullStripped(GreedyBytes, pad=unit(enc))), enc)', C.PaddedString(n, enc), C.StringEncoded(C.FixedSized(n, C.NullStripped(C.GreedyBytes, pad=unit)), enc)
+        for lf in (C.Byte, C.VarInt, C.Int16ul):
+            yield 'PascalString(lf, enc) <--> StringEncoded(Prefixed(lf, GreedyBytes), enc)', C.PascalString(lf, enc), C.StringEncoded(C.Prefixed(lf, C.GreedyBytes), enc)
+        yield 'CString(enc) <--> StringEncoded(NullTerminated(GreedyBytes, term=unit(enc)), enc)', C.CString(enc), C.StringEncoded(C.NullTerminated(C.GreedyBytes, term=unit), enc)
+        yield 'GreedyString(enc) <--> StringEncoded(GreedyBytes, enc)', C.GreedyString(enc), C.StringEncoded(C.GreedyBytes, enc)
+    yield 'encoding unit is 1 byte for 8-bit codecs, 2 for UTF-16, 4 for UTF-32', [len(encodingunit(e)) for e in ('ascii', 'utf8', 'utf_8', 'utf16', 'utf_16_le', 'utf-16-be', 'utf32', 'utf_32_be')], [1, 1, 1, 2, 2, 2, 4, 4]
     yield 'Int24ub <--> BytesInteger(3)', C.Int24ub, C.BytesInteger(3)
     yield 'Int24ul <--> BytesInteger(3, swapped=True)', C.Int24ul, C.BytesInteger(3, swapped=True)
     yield 'Int24sb <--> BytesInteger(3, signed=True)', C.Int24sb, C.BytesInteger(3, signed=True)
